@@ -661,6 +661,22 @@ Next:
     }
   }
 
+  // Validate Consecutive Registers
+  // ------------------------------
+
+  // VP2INTERSECT[D|Q] writes a pair of mask registers {k, k+1} that is encoded as a single register - the first mask
+  // register must be even and the second must follow it.
+  if (inst_info._encoding == InstDB::kEncodingVexRvm_Lx_2xK && op_count >= 2 && operands[0].is_reg() && operands[1].is_reg()) {
+    uint32_t k0_id = operands[0].id();
+    uint32_t k1_id = operands[1].id();
+
+    if (k0_id < Operand::kVirtIdMin && k1_id < Operand::kVirtIdMin) {
+      if (ASMJIT_UNLIKELY((k0_id & 1u) != 0u || k0_id + 1u != k1_id)) {
+        return make_error(Error::kInvalidPhysId);
+      }
+    }
+  }
+
   // Validate EVEX-Only Features
   // ---------------------------
 
